@@ -26,6 +26,12 @@ def axiom(f):
     return f
 
 
+def ghost(f):
+    """a ghost predicate/function: uninterpreted for the solver AND without executable meaning (clauses that mention it
+    are skipped by the native cross-check)"""
+    return f
+
+
 def lemma(f):
     """marks a lemma procedure: requires/ensures/decreases + a proof body, verified by the engine"""
     return f
@@ -483,6 +489,16 @@ def blen_mono(x: Int, y: Int):
 def text_decode(octets, encoding) -> Str:
     """bytes.decode(encoding) (assumed builtin: a function of the octets and the codec name)"""
     return bytes(octets).decode(encoding)
+
+
+@uninterpreted
+def decodable(octets, encoding) -> Bool:
+    """bytes(octets).decode(encoding) succeeds"""
+    try:
+        bytes(octets).decode(encoding)
+        return True
+    except UnicodeDecodeError:
+        return False
 
 
 @uninterpreted
